@@ -1,7 +1,9 @@
 (* C13 -- readers, continued (optimism/ReadExodusMesh.py):
-   (a) the PROPOSED repair of finding C13-READ-NAMES: after the auto-naming loop of _read_blocks / _read_node_sets / _read_side_sets
+   (a) THE READER AS IT IS since /repo ce166ed (repair of finding C13-READ-NAMES): after the auto-naming loop of _read_blocks /
+       _read_node_sets / _read_side_sets the call _check_names_are_distinct(names, kind):
            if len(set(names)) != len(names): raise ValueError(...)
-       i.e. the reader rejects a file whose final names are not pairwise distinct and otherwise does what it did;
+       i.e. the reader rejects (None) a file whose final names are not pairwise distinct and otherwise does what read_exodus
+       (model/M_C13_ReadFile.v, the reader without the check) does;
    (b) _read_block_maps: elementMap = elem_num_map if the file has one, else arange(1, nEle) with nEle = 1 + sum of the block sizes;
            for blockName, blockElems in blocks.items(): block_maps[blockName] = elementMap[first : first + len(blockElems)]; first += len(blockElems)
        (iteration over the blocks DICT, in insertion order);
